@@ -4,3 +4,4 @@ open GV.PointCodec
 #print axioms C07_comp_read_no_hidden_error
 #print axioms C07_comp_chunks
 #print axioms C07_comp_write_no_hidden_error
+#print axioms C07_ted_accept
